@@ -654,6 +654,10 @@ class ModuleVistor(NodeVisitor):
         obj = cast(Optional[model.Attribute], cls.contents.get(name))
         if obj is None:
             obj = self.builder.addAttribute(name=name, kind=None, parent=cls)
+        elif obj.kind is model.DocumentableKind.PROPERTY:
+            # Assigning to a property through the instance calls its setter, 
+            # the class attribute stays a property.
+            return
 
         self._setAttributeAnnotation(obj, annotation)
 
